@@ -79,7 +79,7 @@ def special_cases(ctx):
             c.stmts.append(Do(Call("i." + h, STR(rand_payload(r, 40)))))
         cases.append(c)
     # one flow used for more than 2^16 requests: the 16-bit sequence number wraps to 0
-    if ctx.thorough:
+    if True:            # (both tiers: a narrowing of the counters shows only past the 65536th message)
         c = Case()
         c.name, c.files, c.text, c.meta = "iwrap", {}, None, []
         hist = ["echo"] * 65538 + ["echo_reply", "echo", "echo_reply"]
